@@ -347,6 +347,9 @@ func (e *Engine) addPEGFlagObligations(pa *pegAnalysis) {
 			e.frameObl("peg:"+sc.rule+"/scoped-flag:found@"+sc.target, []string{"C18", "C16"}, false, "", "rule "+sc.rule+" references "+sc.target+" outside a parenthesis guard", "no such reference found (grammar changed?)")
 		}
 	}
+	e.addDigitFreeObligations(pa)
+	e.addAltOrderObligations(pa)
+	e.addClassExcludesObligations(pa)
 	// C18: st.* instructions are emitted only by rules that are reachable solely through the "^st" alternative
 	e.addStConfinement(pa, uniq(stSites))
 }
@@ -463,4 +466,310 @@ func (pa *pegAnalysis) underParenGuard(n *pegNode) bool {
 	}
 	_, g := find(n.Rule.Expr, false)
 	return g
+}
+
+// addDigitFreeObligations (C18): `var pegDigitFree = []string{"<rule>[.<alt>...]"}` in the contracts file names grammar
+// sub-expressions that must not be able to consume an ASCII digit — the unquoted attribute-name tokens of the st command,
+// which end where a number begins (`力量60` is the name 力量 and the value 60).  Decided on the grammar table: no literal
+// with a digit, no character class that admits one ([0-9], \d, \p{N}, \p{Nd}, an inverted class), no `.`, following rule references.
+func (e *Engine) addDigitFreeObligations(pa *pegAnalysis) {
+	var paths []string
+	for v, lit := range e.globalsInit {
+		if v.Name() != "pegDigitFree" {
+			continue
+		}
+		for _, el := range lit.Elts {
+			if bl, ok := el.(*ast.BasicLit); ok {
+				if s, err := strconv.Unquote(bl.Value); err == nil {
+					paths = append(paths, s)
+				}
+			}
+		}
+	}
+	sort.Strings(paths)
+	for _, path := range paths {
+		parts := strings.Split(path, ".")
+		r := pa.g.ByName[parts[0]]
+		name := "peg:" + path + "/digit-free"
+		if r == nil {
+			e.frameObl(name, []string{"C18"}, false, "", "grammar element "+path+" exists", "no rule "+parts[0])
+			continue
+		}
+		n := r.Expr
+		ok := true
+		for _, ps := range parts[1:] {
+			k, err := strconv.Atoi(ps)
+			// look through wrappers that have a single child
+			for n != nil && (n.Kind == pkLabeled || n.Kind == pkAction) && len(n.Kids) == 1 && n.Kind != pkChoice {
+				n = n.Kids[0]
+			}
+			if err != nil || n == nil || k < 0 || k >= len(n.Kids) {
+				ok = false
+				break
+			}
+			n = n.Kids[k]
+		}
+		if !ok {
+			e.frameObl(name, []string{"C18"}, false, "", "grammar element "+path+" exists", "path does not exist in the grammar table")
+			continue
+		}
+		why := pa.mayConsumeDigit(n, map[*pegRule]bool{})
+		e.frameObl(name, []string{"C18"}, why == "", "", "the unquoted st name token "+path+" cannot consume a digit (a name ends where a number begins)", why)
+	}
+}
+
+// mayConsumeDigit returns "" when n cannot consume an ASCII digit, else a reason.
+func (pa *pegAnalysis) mayConsumeDigit(n *pegNode, seen map[*pegRule]bool) string {
+	switch n.Kind {
+	case pkAnd, pkNot, pkAndCode, pkNotCode, pkCode:
+		return ""
+	case pkAny:
+		return "`.` matches any character"
+	case pkLit:
+		if strings.ContainsAny(n.Text, "0123456789") {
+			return "literal " + strconv.Quote(n.Text) + " contains a digit"
+		}
+		return ""
+	case pkClass:
+		if classAdmitsDigit(n.Text) {
+			return "character class " + n.Text + " admits a digit"
+		}
+		return ""
+	case pkRef:
+		r := pa.g.Rules[n.Ref]
+		if seen[r] {
+			return ""
+		}
+		seen[r] = true
+		return pa.mayConsumeDigit(r.Expr, seen)
+	}
+	for _, k := range n.Kids {
+		if w := pa.mayConsumeDigit(k, seen); w != "" {
+			return w
+		}
+	}
+	return ""
+}
+
+// classAdmitsDigit: a pigeon character class text such as [_$\p{L}\p{Other_ID_Start}] or [0-9a-f]i.
+func classAdmitsDigit(text string) bool {
+	t := text
+	if i := strings.LastIndex(t, "]"); i >= 0 {
+		t = t[:i]
+	}
+	t = strings.TrimPrefix(t, "[")
+	if strings.HasPrefix(t, "^") {
+		return true // inverted class: admits whatever it does not exclude; treated as admitting digits
+	}
+	rs := []rune(t)
+	for i := 0; i < len(rs); i++ {
+		c := rs[i]
+		if c == '\\' && i+1 < len(rs) {
+			switch rs[i+1] {
+			case 'd':
+				return true
+			case 'p', 'P':
+				// \pN or \p{Name}
+				j := i + 2
+				name := ""
+				if j < len(rs) && rs[j] == '{' {
+					k := j + 1
+					for k < len(rs) && rs[k] != '}' {
+						k++
+					}
+					name = string(rs[j+1 : k])
+					i = k
+				} else if j < len(rs) {
+					name = string(rs[j])
+					i = j
+				}
+				if rs[i-len([]rune(name))-1] == 'P' || name == "N" || name == "Nd" || name == "Number" || name == "Decimal_Number" || name == "Digit" || strings.HasPrefix(name, "Other_ID_Continue") {
+					return true
+				}
+				continue
+			default:
+				i++
+				continue
+			}
+		}
+		// range a-b
+		if i+2 < len(rs) && rs[i+1] == '-' {
+			lo, hi := c, rs[i+2]
+			if lo <= '9' && hi >= '0' {
+				return true
+			}
+			i += 2
+			continue
+		}
+		if c >= '0' && c <= '9' {
+			return true
+		}
+	}
+	return false
+}
+
+// addAltOrderObligations (C18): `var pegAltBefore = []string{"<rule>: <A> before <B>"}` — in the ordered choice of <rule>,
+// every alternative whose first consuming element is a reference to rule A comes before every alternative that starts
+// with rule B.  PEG choice is ordered: when B can match a prefix of what A matches (a plain name is a prefix of a
+// namespaced name `ns:name`), trying B first splits the longer token.
+func (e *Engine) addAltOrderObligations(pa *pegAnalysis) {
+	var specs []string
+	for v, lit := range e.globalsInit {
+		if v.Name() != "pegAltBefore" {
+			continue
+		}
+		for _, el := range lit.Elts {
+			if bl, ok := el.(*ast.BasicLit); ok {
+				if s, err := strconv.Unquote(bl.Value); err == nil {
+					specs = append(specs, s)
+				}
+			}
+		}
+	}
+	sort.Strings(specs)
+	for _, sp := range specs {
+		k := strings.Index(sp, ":")
+		f := strings.Fields(sp[k+1:])
+		rule := strings.TrimSpace(sp[:max(k, 0)])
+		name := "peg:" + rule + "/alt-order:" + strings.Join(f, "-")
+		if k < 0 || len(f) != 3 || f[1] != "before" {
+			e.frameObl(name, []string{"C18"}, false, "", "well-formed pegAltBefore entry", "cannot parse "+strconv.Quote(sp))
+			continue
+		}
+		r := pa.g.ByName[rule]
+		if r == nil {
+			e.frameObl(name, []string{"C18"}, false, "", "rule "+rule+" exists", "no such rule")
+			continue
+		}
+		ch := unwrapPeg(r.Expr)
+		if ch.Kind != pkChoice {
+			e.frameObl(name, []string{"C18"}, false, "", "rule "+rule+" is an ordered choice", "the rule body is not a choice")
+			continue
+		}
+		lastA, firstB := -1, -1
+		nA, nB := 0, 0
+		for i, alt := range ch.Kids {
+			switch pa.firstRuleOf(alt) {
+			case f[0]:
+				nA++
+				lastA = i
+			case f[2]:
+				nB++
+				if firstB < 0 {
+					firstB = i
+				}
+			}
+		}
+		ok := nA > 0 && nB > 0 && lastA < firstB
+		detail := ""
+		if !ok {
+			detail = fmt.Sprintf("alternatives starting with %s: %d (last at %d); starting with %s: %d (first at %d)", f[0], nA, lastA, f[2], nB, firstB)
+		}
+		e.frameObl(name, []string{"C18"}, ok, "", "in "+rule+", the alternatives that start with "+f[0]+" are tried before those that start with "+f[2], detail)
+	}
+}
+
+// firstRuleOf: the rule referenced by the first consuming element of n (looking through guards, labels, actions and
+// leading literals such as "&"), or "".
+func (pa *pegAnalysis) firstRuleOf(n *pegNode) string {
+	n = unwrapPeg(n)
+	switch n.Kind {
+	case pkRef:
+		return pa.g.Rules[n.Ref].Name
+	case pkSeq:
+		for _, k := range n.Kids {
+			ku := unwrapPeg(k)
+			switch ku.Kind {
+			case pkAnd, pkNot, pkAndCode, pkNotCode, pkCode:
+				continue
+			case pkLit:
+				return "lit:" + ku.Text
+			}
+			return pa.firstRuleOf(ku)
+		}
+	}
+	return ""
+}
+
+// addClassExcludesObligations (C13): `var pegClassExcludes = []string{"<rule>: <chars>"}` — the text class of a string
+// literal style is an inverted character class that excludes EXACTLY the listed characters (its own delimiter, the
+// backslash and, for templates, the opening brace).  A character excluded without being a delimiter has no spelling
+// in that style (the escapes cover only the listed ones), so some text would not be representable.
+func (e *Engine) addClassExcludesObligations(pa *pegAnalysis) {
+	var specs []string
+	for v, lit := range e.globalsInit {
+		if v.Name() != "pegClassExcludes" {
+			continue
+		}
+		for _, el := range lit.Elts {
+			if bl, ok := el.(*ast.BasicLit); ok {
+				if s, err := strconv.Unquote(bl.Value); err == nil {
+					specs = append(specs, s)
+				}
+			}
+		}
+	}
+	sort.Strings(specs)
+	for _, sp := range specs {
+		k := strings.Index(sp, ": ")
+		if k < 0 {
+			continue
+		}
+		rule, want := sp[:k], []rune(sp[k+2:])
+		name := "peg:" + rule + "/class-excludes-exactly"
+		r := pa.g.ByName[rule]
+		if r == nil {
+			e.frameObl(name, []string{"C13"}, false, "", "rule "+rule+" exists", "no such rule")
+			continue
+		}
+		var classes []*pegNode
+		var walk func(n *pegNode)
+		walk = func(n *pegNode) {
+			if n.Kind == pkClass {
+				classes = append(classes, n)
+			}
+			for _, c := range n.Kids {
+				walk(c)
+			}
+		}
+		walk(r.Expr)
+		detail := ""
+		switch {
+		case len(classes) != 1:
+			detail = fmt.Sprintf("expected one character class in the rule, found %d", len(classes))
+		case !classes[0].Inverted:
+			detail = "the class is not inverted: " + classes[0].Text
+		case len(classes[0].Ranges) > 0:
+			detail = "the class excludes ranges: " + classes[0].Text
+		default:
+			got := map[rune]bool{}
+			for _, c := range classes[0].Chars {
+				got[c] = true
+			}
+			wantSet := map[rune]bool{}
+			for _, c := range want {
+				wantSet[c] = true
+			}
+			var extra, missing []string
+			for c := range got {
+				if !wantSet[c] {
+					extra = append(extra, strconv.QuoteRune(c))
+				}
+			}
+			for c := range wantSet {
+				if !got[c] {
+					missing = append(missing, strconv.QuoteRune(c))
+				}
+			}
+			sort.Strings(extra)
+			sort.Strings(missing)
+			if len(extra) > 0 {
+				detail += "also excludes " + strings.Join(extra, " ") + " (no escape exists for it in this style) "
+			}
+			if len(missing) > 0 {
+				detail += "no longer excludes " + strings.Join(missing, " ")
+			}
+		}
+		e.frameObl(name, []string{"C13"}, detail == "", "", "the text class of "+rule+" excludes exactly "+strconv.Quote(string(want)), detail)
+	}
 }
